@@ -51,7 +51,8 @@ RULE = ("exhaustive: on a base graph per version (3 segments incl. an integer-lo
 PROF = H.profile(p_fail=0.35, close=0.4, rename_star=0.08,
                  ops={"add": 45, "rm": 8, "rmline": 3, "disconnect": 3, "rename": 24, "settag": 3, "deltag": 1},
                  fails={"dup-same": 5, "dup-other": 6, "dup-link": 1, "version": 0.5, "malformed": 0.5, "header": 0,
-                        "grouptag": 0.5, "rename-existing": 6, "rm-missing": 0.5, "illegal-edit": 0, "empty-line": 0})
+                        "grouptag": 0.5, "rename-existing": 6, "rm-missing": 0.5, "illegal-edit": 0, "empty-line": 0,
+                        "rename-placeholder": 5})
 CASE_TIMEOUT = 60
 
 BASE = {
@@ -62,6 +63,12 @@ BASE = {
 }
 OWN = {"gfa1": {"S": "A", "L": "e1", "C": "e2", "P": "p1"},
        "gfa2": {"S": "A", "E": "e1", "G": "g1", "O": "o1", "U": "u1"}}
+
+
+# lines that mention identifiers nobody defines: V stands for a segment (placeholder of known type), W is listed by a
+# set (placeholder of unknown type, GFA2 only)
+MENTION = {"gfa1": ["L\tB\t+\tV\t-\t*"], "gfa2": ["E\t*\tB+\tV-\t0\t5\t0\t5\t*", "U\tu9\tB W"]}
+MENTIONED = {"gfa1": ["V"], "gfa2": ["V", "W"]}
 
 
 def mk_line(v, rt, n):
@@ -95,6 +102,11 @@ def _cells():
                 out.append((v, "add", rt, n))
                 if n != OWN[v][rt]:
                     out.append((v, "rename", rt, n))
+    for v in ("gfa1", "gfa2"):
+        for rt in H.IDENTIFIED[v]:
+            for n in MENTIONED[v]:
+                out.append((v, "rename-mentioned", rt, n))
+                out.append((v, "add-mentioned", rt, n))
     return out
 
 
@@ -109,10 +121,13 @@ def exhaustive_case(i, tier):
     v, op, rt, n = CELLS[i]
     hist = [["add", t] for t in BASE[v]]
     labels = ["add:%s" % t[0] for t in BASE[v]]
-    if op == "add":
-        hist.append(["add", mk_line(v, rt, n)]); labels.append("cell:add:%s:%s" % (rt, n))
+    if op.endswith("-mentioned"):
+        hist += [["add", t] for t in MENTION[v]]
+        labels += ["add:%s" % t[0] for t in MENTION[v]]
+    if op.startswith("add"):
+        hist.append(["add", mk_line(v, rt, n)]); labels.append("cell:%s:%s:%s" % (op, rt, n))
     else:
-        hist.append(["rename", OWN[v][rt], n]); labels.append("cell:rename:%s:%s" % (rt, n))
+        hist.append(["rename", OWN[v][rt], n]); labels.append("cell:%s:%s:%s" % (op, rt, n))
     return {"version": v, "flavour": v, "vlevel": 1, "hist": hist, "labels": labels}
 
 
@@ -181,6 +196,8 @@ def invariants(g, v):
         real = [c for c in carriers if not c[1]]
         if len(carriers) > 1 and not any(c[1] for c in carriers):
             F.append("identifier-carried-by-two-lines: %r by %r" % (n, [c[0] for c in carriers]))
+        elif real and len(real) < len(carriers):
+            F.append("identifier-carried-by-line-and-placeholder: %r by %r" % (n, [c[0] for c in carriers]))
         if real and n not in names:
             F.append("identifier-missing-from-names: %r (%s) not in %r" % (n, real[0][0], names))
     for n in sorted(set(names)):
@@ -210,7 +227,45 @@ def invariants(g, v):
     u = g.unused_name()
     if u in names or u in ids or g.line(u) is not None:
         F.append("unused-name-in-use: %r, names %r" % (u, names))
+    # every line that a line of the Gfa mentions (placeholders included) is what a lookup of its identifier returns
+    for l in g.lines:
+        if l.record_type == "H":
+            continue
+        for how, t in mentioned_lines(gfapy, l):
+            if not isinstance(t, gfapy.Line) or t.record_type not in NAMED_RT:
+                continue
+            n = t.name
+            if not isinstance(n, str) or gfapy.is_placeholder(n):
+                continue
+            y = g.line(n)
+            if y is not t:
+                F.append("mentioned-line-not-found-under-identifier: %r mentions (%s) %r, but line(%r) is %r" %
+                         (str(l), how, str(t), n, None if y is None else str(y)))
+                return F
     return F
+
+
+NAMED_RT = ("S", "P", "E", "G", "O", "U", "\n")
+
+
+def _unwrap(gfapy, x):
+    return x.line if isinstance(x, gfapy.OrientedLine) else x
+
+
+def mentioned_lines(gfapy, l):
+    """[(field, line)] the lines a line mentions in its reference fields, through public attributes"""
+    rt = l.record_type
+    if rt in ("L", "C"):
+        return [("from_segment", l.from_segment), ("to_segment", l.to_segment)]
+    if rt in ("E", "G"):
+        return [("sid1", _unwrap(gfapy, l.sid1)), ("sid2", _unwrap(gfapy, l.sid2))]
+    if rt == "F":
+        return [("sid", l.sid)]
+    if rt in ("O", "U"):
+        return [("items", _unwrap(gfapy, x)) for x in l.items]
+    if rt == "P":
+        return [("segment_names", _unwrap(gfapy, x)) for x in l.segment_names]
+    return []
 
 
 def oracle(case):
@@ -225,6 +280,7 @@ def oracle(case):
             return []
         ids = ids_in_text(pre, v)
         demand = None      # (what, rt, previous rt) when NotUniqueError is demanded
+        onto_placeholder = False   # a rename to an identifier that a lookup answers with a placeholder
         merge_rename = False
         line = None
         rename_check = None
@@ -255,14 +311,15 @@ def oracle(case):
                         demand = ("rename", lrt, prt)
                     else:
                         merge_rename = True
+                elif new in ids and new != old:
+                    other = g.line(new)
+                    onto_placeholder = other is not None and other is not line
                 elif new not in ids and new != "*" and old is not None and len(ids.get(old, [])) == 1 and H.well_formed(H.join_rec(["S", new, "*"]), "gfa1"):
                     mentioned = set()
                     for t in pre:
                         mentioned.update(H.mentions(H.split_rec(t), v))
                     if new not in mentioned:
                         rename_check = (old, new)
-        if target_id is not None and target_id in ids and any(virt for _, virt in ids[target_id]):
-            return []  # identifier of a placeholder (only mentioned so far): not pinned down, see NOT CHECKED
         r = H.apply_step(g, step, line)
         if r[0] == "skip":
             continue
@@ -276,6 +333,13 @@ def oracle(case):
                 F.append("%s: %s line takes the identifier of a stored %s line without NotUniqueError %s" % (sig, rt, prt, where))
             elif r[0] == "gerr" and r[1] != "NotUniqueError":
                 F.append("%s-duplicate-raises-%s: %s over %s %s" % (what, r[1], rt, prt, where))
+        if onto_placeholder:
+            if r[0] == "ok":
+                F.append("rename-onto-placeholder-accepted: %s line renamed to %r, which a lookup answered with the "
+                         "placeholder of a line mentioned but not yet defined, without NotUniqueError %s" %
+                         (line.record_type, step[2], where))
+            elif r[0] == "gerr" and r[1] != "NotUniqueError":
+                F.append("rename-onto-placeholder-raises-%s: %s %s" % (r[1], line.record_type, where))
         if F:
             return F
         failed = r[0] != "ok"
